@@ -659,7 +659,8 @@ func cmdCheck(args []string) int {
 			knownHit = append(knownHit, k.Class)
 			continue
 		}
-		path := filepath.Join(verifDir, "replays", fmt.Sprintf("%s-%d.json", prop, f.seed))
+		ch := sha256.Sum256([]byte(rp.Violation.Class))
+		path := filepath.Join(verifDir, "replays", fmt.Sprintf("%s-%d-%x.json", prop, f.seed, ch[:3]))
 		os.MkdirAll(filepath.Dir(path), 0o755)
 		jb, _ := json.MarshalIndent(rp, "", " ")
 		os.WriteFile(path, jb, 0o644)
